@@ -164,7 +164,7 @@ def r4_schema(ctx):
     rule = "C15.R4"
     ctx.rule(rule, "header/row column arity agrees; typed columns are fed by validated fields; row strings cannot contain separators")
     prog = ctx.prog
-    src = os.path.join(extract.REPO, "crates", "cascette-ribbit", "src", "responses", "bpsv.rs")
+    src = os.path.join(extract.src_root(), "crates", "cascette-ribbit", "src", "responses", "bpsv.rs")
     if not ctx.anchor(rule, os.path.exists(src), "responses/bpsv.rs"):
         return
     recs = astx_records([src])
